@@ -238,6 +238,10 @@ def _prec(run, P):
                            "not parenthesized when it contains a weaker operator: "
                            "'(A or B) and C' comes out as 'A .or. B .and. C'")
     power_rule(run, P, "C03.prec", f"{EXPR}.FortranExpressionMapper")
+    from .c01 import forced_parens_rule
+    if forced_parens_rule(run, P, "C03.prec", f"{EXPR}.FortranExpressionMapper") < 1:
+        raise AnalysisError("FortranExpressionMapper: no handler replaces a pymbolic handler that "
+                            "forces parentheses (map_product expected)")
     if n < 8:
         raise AnalysisError(f"only {n} printer operands examined")
 
